@@ -538,4 +538,222 @@ Section Rounded.
     destruct ts as [|a ts]; [congruence|]. apply (@exists_last _ (a :: ts)) in Hne.
     destruct Hne as (l' & x & ->). rewrite last_last. apply in_or_app. right. left. reflexivity.
   Qed.
+
+  (* ---------- the theorems, for an abstract rounding ---------- *)
+  Lemma hd_nth0 (l : list rknot) : hd d0 l = nth 0 l d0.
+  Proof. destruct l; reflexivity. Qed.
+  Lemma t_first_eq s : t_first s = rk_time (nth 0 (fst s) d0).
+  Proof. unfold t_first. rewrite hd_nth0. reflexivity. Qed.
+  Lemma t_last_eq s : t_last s = rk_time (nth (length (fst s) - 1) (fst s) d0).
+  Proof. unfold t_last. rewrite last_nth. reflexivity. Qed.
+
+  Lemma slice_table_ok ts z s : tables_ok fmt ts -> is_slice ts z s -> table_ok fmt (fst s).
+  Proof.
+    intros (_ & H & _) (l1 & l2 & -> & _). rewrite Forall_forall in H. apply H.
+    apply in_or_app. right. left. reflexivity.
+  Qed.
+
+  (* trichotomy of outcomes *)
+  Lemma lookup_outcome_gen m ts z t :
+    tables_ok fmt ts ->
+    (zmax ts < Rabs z /\ tables_at A m ts z t = Err ERR_Z) \/
+    (exists s, is_slice ts z s /\
+       (((t < t_first s \/ t_last s < t) /\ tables_at A m ts z t = Err ERR_TIME) \/
+        (t_first s <= t <= t_last s /\
+         tables_at A m ts z t =
+           Ok (interp (nth (seg_index (fst s) t - 1) (fst s) d0) (nth (seg_index (fst s) t) (fst s) d0) t)))).
+  Proof.
+    intros Hok. destruct (tables_at_spec m ts z t Hok) as [Hz Hs].
+    destruct (Rlt_or_le (zmax ts) (Rabs z)) as [H|H]; [left; split; [exact H|apply Hz, H]|].
+    right. destruct (zmax_slice_exists ts z (proj1 Hok) H) as (s & Hsl).
+    exists s. split; [exact Hsl|]. rewrite (Hs s Hsl).
+    pose proof (slice_table_ok ts z s Hok Hsl) as Htb.
+    destruct (table_at_spec m (fst s) t Htb) as [Hout Hin].
+    rewrite t_first_eq, t_last_eq.
+    destruct (Rlt_or_le t (rk_time (nth 0 (fst s) d0))) as [H1|H1];
+      [left; split; [left; exact H1|apply Hout; left; exact H1]|].
+    destruct (Rlt_or_le (rk_time (nth (length (fst s) - 1) (fst s) d0)) t) as [H2|H2];
+      [left; split; [right; exact H2|apply Hout; right; exact H2]|].
+    right. split; [split; assumption|]. apply Hin. split; assumption.
+  Qed.
+
+  Lemma err_kinds_differ : ERR_TIME <> ERR_Z. Proof. discriminate. Qed.
+
+  Theorem lookup_ok_iff_gen m ts z t :
+    tables_ok fmt ts ->
+    ((exists r c, tables_at A m ts z t = Ok (r, c)) <->
+     Rabs z <= zmax ts /\ exists s, is_slice ts z s /\ t_first s <= t <= t_last s).
+  Proof.
+    intros Hok. destruct (lookup_outcome_gen m ts z t Hok) as [[Hz E]|(s & Hsl & [[Ht E]|[Ht E]])]; rewrite E.
+    - split; [intros (r & c & X); discriminate|]. intros [H _]. lra.
+    - split; [intros (r & c & X); discriminate|]. intros [_ (s' & Hsl' & H)].
+      rewrite <- (is_slice_unique ts z s s' Hsl Hsl') in H. lra.
+    - split; [|intros _; eexists; eexists; unfold interp; reflexivity].
+      intros _. split; [eapply is_slice_le_zmax; eauto|]. exists s. split; assumption.
+  Qed.
+
+  Theorem lookup_err_z_iff_gen m ts z t :
+    tables_ok fmt ts -> (tables_at A m ts z t = Err ERR_Z <-> zmax ts < Rabs z).
+  Proof.
+    intros Hok. destruct (lookup_outcome_gen m ts z t Hok) as [[Hz E]|(s & Hsl & [[Ht E]|[Ht E]])]; rewrite E.
+    - tauto.
+    - pose proof (is_slice_le_zmax ts z s Hok Hsl). split; [intros X; inv X|lra].
+    - pose proof (is_slice_le_zmax ts z s Hok Hsl). split; [discriminate|lra].
+  Qed.
+
+  Theorem lookup_err_time_iff_gen m ts z t :
+    tables_ok fmt ts ->
+    (tables_at A m ts z t = Err ERR_TIME <-> exists s, is_slice ts z s /\ (t < t_first s \/ t_last s < t)).
+  Proof.
+    intros Hok. destruct (lookup_outcome_gen m ts z t Hok) as [[Hz E]|(s & Hsl & [[Ht E]|[Ht E]])]; rewrite E.
+    - split; [intros X; inv X|]. intros (s & Hsl & _). pose proof (is_slice_le_zmax ts z s Hok Hsl). lra.
+    - split; [intros _; exists s; split; assumption|reflexivity].
+    - split; [discriminate|]. intros (s' & Hsl' & H).
+      rewrite <- (is_slice_unique ts z s s' Hsl Hsl') in H. lra.
+  Qed.
+
+  (* never a panic, and the checked and the wrapping build agree *)
+  Theorem lookup_total_gen m ts z t : tables_ok fmt ts -> tables_at A m ts z t <> Panic.
+  Proof.
+    intros Hok. destruct (lookup_outcome_gen m ts z t Hok) as [[Hz E]|(s & Hsl & [[Ht E]|[Ht E]])];
+      rewrite E; discriminate.
+  Qed.
+
+  Theorem lookup_no_wrap_gen ts z t :
+    tables_ok fmt ts -> tables_at A Wrapping ts z t = tables_at A Checked ts z t.
+  Proof.
+    intros Hok.
+    destruct (lookup_outcome_gen Checked ts z t Hok) as [[Hz E]|(s & Hsl & [[Ht E]|[Ht E]])]; rewrite E;
+    destruct (lookup_outcome_gen Wrapping ts z t Hok) as [[Hz' E']|(s' & Hsl' & [[Ht' E']|[Ht' E']])]; rewrite E';
+    try reflexivity;
+    try (pose proof (is_slice_le_zmax ts z _ Hok Hsl); lra);
+    try (pose proof (is_slice_le_zmax ts z _ Hok Hsl'); lra);
+    try (rewrite <- (is_slice_unique ts z s s' Hsl Hsl') in *; lra).
+    rewrite <- (is_slice_unique ts z s s' Hsl Hsl'). reflexivity.
+  Qed.
+
+  (* rhs_index >= 1 whenever the range test passed: `rhs_index - 1` cannot underflow *)
+  Theorem no_underflow_index_gen m tb t :
+    table_ok fmt tb -> in_range tb t ->
+    exists i, rhs_index_of A m tb t = Ok i /\ (1 <= i)%N /\ (i < lenN tb)%N.
+  Proof.
+    intros Hok Hin. destruct (table_at_spec m tb t Hok) as [_ H]. destruct (H Hin) as [E _].
+    destruct (seg_index_spec tb t Hok Hin) as (H1 & H2 & _).
+    exists (N.of_nat (seg_index tb t)). split; [exact E|]. unfold lenN. lia.
+  Qed.
+
+  (* Ok results come from the slice's table *)
+  Lemma lookup_ok_inv m ts z t r c :
+    tables_ok fmt ts -> tables_at A m ts z t = Ok (r, c) ->
+    exists s, is_slice ts z s /\ table_ok fmt (fst s) /\ table_at A m (fst s) t = Ok (r, c).
+  Proof.
+    intros Hok E. destruct (tables_at_spec m ts z t Hok) as [Hz Hs].
+    destruct (Rlt_or_le (zmax ts) (Rabs z)) as [H|H]; [rewrite (Hz H) in E; discriminate|].
+    destruct (zmax_slice_exists ts z (proj1 Hok) H) as (s & Hsl). exists s.
+    split; [exact Hsl|]. split; [eapply slice_table_ok; eauto|]. rewrite <- (Hs s Hsl). exact E.
+  Qed.
+
+  Lemma table_extremes tb k :
+    table_ok fmt tb -> In k tb ->
+    rk_radius (nth (length tb - 1) tb d0) <= rk_radius k <= rk_radius (nth 0 tb d0) /\
+    rk_corr (nth 0 tb d0) <= rk_corr k <= rk_corr (nth (length tb - 1) tb d0).
+  Proof.
+    intros Hok Hin. destruct (In_nth tb k d0 Hin) as (j & Hj & <-).
+    destruct (table_sorted_le tb 0 j Hok) as (_ & A1 & A2); [lia|exact Hj|].
+    destruct (table_sorted_le tb j (length tb - 1) Hok) as (_ & B1 & B2); [lia|lia|].
+    repeat split; assumption.
+  Qed.
+
+  (* radius between the smallest and the largest radius tabulated for the slice *)
+  Theorem radius_in_range_gen m ts z t r c s lo hi :
+    tables_ok fmt ts -> is_slice ts z s -> tables_at A m ts z t = Ok (r, c) ->
+    (forall k, In k (fst s) -> lo <= rk_radius k) -> (forall k, In k (fst s) -> rk_radius k <= hi) ->
+    lo <= r <= hi.
+  Proof.
+    intros Hok Hsl E Hlo Hhi.
+    destruct (lookup_ok_inv m ts z t r c Hok E) as (s' & Hsl' & Htb & E').
+    rewrite <- (is_slice_unique ts z s s' Hsl Hsl') in *.
+    destruct (table_result_range m (fst s) t r c Htb E') as (Hin & Hr & _). cbn zeta in Hr.
+    destruct (bracket_facts (fst s) t Htb Hin) as (H1 & H2 & _).
+    assert (In (nth (seg_index (fst s) t) (fst s) d0) (fst s)) as I1 by (apply nth_In; lia).
+    assert (In (nth (seg_index (fst s) t - 1) (fst s) d0) (fst s)) as I2 by (apply nth_In; lia).
+    specialize (Hlo _ I1). specialize (Hhi _ I2). lra.
+  Qed.
+
+  (* correction between 0 and the slice's largest tabulated correction *)
+  Theorem lorentz_in_range_gen m ts z t r c s hi :
+    tables_ok fmt ts -> is_slice ts z s -> tables_at A m ts z t = Ok (r, c) ->
+    (forall k, In k (fst s) -> rk_corr k <= hi) ->
+    0 <= c <= hi.
+  Proof.
+    intros Hok Hsl E Hhi.
+    destruct (lookup_ok_inv m ts z t r c Hok E) as (s' & Hsl' & Htb & E').
+    rewrite <- (is_slice_unique ts z s s' Hsl Hsl') in *.
+    destruct (table_result_range m (fst s) t r c Htb E') as (Hin & _ & Hc). cbn zeta in Hc.
+    destruct (bracket_facts (fst s) t Htb Hin) as (H1 & H2 & _).
+    assert (In (nth (seg_index (fst s) t) (fst s) d0) (fst s)) as I1 by (apply nth_In; lia).
+    assert (In (nth (seg_index (fst s) t - 1) (fst s) d0) (fst s)) as I2 by (apply nth_In; lia).
+    destruct (table_extremes (fst s) _ Htb I2) as (_ & C0 & _).
+    assert (rk_corr (nth 0 (fst s) d0) = 0) as Z0.
+    { destruct Htb as (_ & Hz & _). rewrite hd_nth0 in Hz. exact Hz. }
+    specialize (Hhi _ I1). lra.
+  Qed.
+
+  (* radius does not increase with drift time *)
+  Theorem radius_monotone_gen m ts z t1 t2 r1 c1 r2 c2 :
+    tables_ok fmt ts -> t1 <= t2 ->
+    tables_at A m ts z t1 = Ok (r1, c1) -> tables_at A m ts z t2 = Ok (r2, c2) -> r2 <= r1.
+  Proof.
+    intros Hok H12 E1 E2.
+    destruct (lookup_ok_inv m ts z t1 r1 c1 Hok E1) as (s & Hsl & Htb & E1').
+    destruct (lookup_ok_inv m ts z t2 r2 c2 Hok E2) as (s' & Hsl' & _ & E2').
+    rewrite <- (is_slice_unique ts z s s' Hsl Hsl') in *.
+    eapply table_radius_monotone; eauto.
+  Qed.
+
+  (* the tabulated radius is reproduced exactly at every tabulated time *)
+  Theorem radius_at_knots_gen m ts z s k :
+    tables_ok fmt ts -> is_slice ts z s -> In k (fst s) ->
+    exists c, tables_at A m ts z (rk_time k) = Ok (rk_radius k, c).
+  Proof.
+    intros Hok Hsl Hin. destruct (tables_at_spec m ts z (rk_time k) Hok) as [_ Hs].
+    rewrite (Hs s Hsl). destruct (In_nth (fst s) k d0 Hin) as (j & Hj & <-).
+    apply table_at_knot; [eapply slice_table_ok; eauto|exact Hj].
+  Qed.
+
+  (* only |z| is used *)
+  Theorem z_symmetric_gen m ts z t : tables_at A m ts (- z) t = tables_at A m ts z t.
+  Proof.
+    unfold tables_at. change (f_abs A (- z)) with (Rabs (- z)). change (f_abs A z) with (Rabs z).
+    rewrite Rabs_Ropp. reflexivity.
+  Qed.
+
+  (* the change between two lookups is bounded by the tabulated change over any knot interval
+     [time_i, time_j] that contains both times *)
+  Theorem step_bound_gen m ts z s i j t1 t2 r1 c1 r2 c2 :
+    tables_ok fmt ts -> is_slice ts z s -> (i <= j)%nat -> (j < length (fst s))%nat ->
+    rk_time (knot_at s i) <= t1 -> t1 <= t2 -> t2 <= rk_time (knot_at s j) ->
+    tables_at A m ts z t1 = Ok (r1, c1) -> tables_at A m ts z t2 = Ok (r2, c2) ->
+    0 <= r1 - r2 <= rk_radius (knot_at s i) - rk_radius (knot_at s j).
+  Proof.
+    intros Hok Hsl Hij Hj Hi1 H12 H2j E1 E2.
+    assert (In (knot_at s i) (fst s)) as Ii by (apply nth_In; lia).
+    assert (In (knot_at s j) (fst s)) as Ij by (apply nth_In; lia).
+    destruct (radius_at_knots_gen m ts z s _ Hok Hsl Ii) as (ci & Ei).
+    destruct (radius_at_knots_gen m ts z s _ Hok Hsl Ij) as (cj & Ej).
+    pose proof (radius_monotone_gen m ts z _ _ _ _ _ _ Hok Hi1 Ei E1).
+    pose proof (radius_monotone_gen m ts z _ _ _ _ _ _ Hok H12 E1 E2).
+    pose proof (radius_monotone_gen m ts z _ _ _ _ _ _ Hok H2j E2 Ej).
+    lra.
+  Qed.
+
+  (* the space point: r from the lookup, phi - correction, z unchanged *)
+  Lemma space_point_eq m ts t phi z :
+    space_point A m ts t phi z =
+    match tables_at A m ts z t with
+    | Ok rc => Ok (fst rc, rnd (phi - snd rc), z)
+    | Err k => Err k
+    | Panic => Panic
+    end.
+  Proof. unfold space_point, bind. destruct (tables_at A m ts z t); reflexivity. Qed.
 End Rounded.
